@@ -61,6 +61,14 @@ Theorem C15_override_same_rules : forall fs r e a0 rest,
 Proof. exact override_same_rules. Qed.
 Print Assumptions C15_override_same_rules.
 
+(* "the parent's PATH": the environment requested for the child -- a PATH entry of its own included -- has no
+   influence on which paths are tried or on the outcome *)
+Theorem C15_lookup_ignores_child_env : forall r env' p p',
+  prepare r = PPlan p -> prepare (mkreq (r_argv r) (r_exe r) env' (r_cwd r) (r_path r)) = PPlan p' ->
+  p_cands p' = p_cands p /\ forall fs, exec_loop fs (p_cands p') ENOENT = exec_loop fs (p_cands p) ENOENT.
+Proof. exact lookup_ignores_child_env. Qed.
+Print Assumptions C15_lookup_ignores_child_env.
+
 Example C15_nonvacuous :
   (* PATH = ":/a::/b:" , cmd = "x", /a/x is not executable (EACCES), /b/x starts *)
   let fs := fun c => if str_eqb c [47; 98; 47; 120] then None else if str_eqb c [47; 97; 47; 120] then Some 13 else Some 2 in
